@@ -2,7 +2,7 @@
     Property theorems only; each is closed by [exact] of a lemma of [Proofs/]. *)
 From Coq Require Import List ZArith Bool.
 From EDS Require Import Model.Objects Model.Default Model.Canary Model.EdsLogic Model.EdsReconcile
-     Proofs.Lists Proofs.EdsInv Proofs.C05Proofs Proofs.EdsWrites.
+     Model.ErsReconcile Proofs.Lists Proofs.EdsInv Proofs.C05Proofs Proofs.EdsWrites Proofs.FailedMark.
 Import ListNotations.
 Open Scope Z_scope.
 
@@ -58,3 +58,14 @@ Theorem C07_deleted_only_when_empty : forall now r,
   should_delete_ers now r = false.
 Proof. exact nonzero_never_deleted. Qed.
 Print Assumptions C07_deleted_only_when_empty.
+
+(** Between the two writes of the rollback the only durable record of the failure is the Canary-Failed condition of the
+    canary replica set. No sync of a replica set that is not the active one - canary role or, once status.canary is
+    cleared, no role at all - ever writes a status that lost it, whatever the pods, annotations, faults and choices of the
+    runtime: the retry of the rollback finds the mark again. *)
+Theorem C07_failed_mark_durable : forall sn ch pl st,
+  ers_sync sn ch = Ok pl -> pl_role pl <> RoleActive ->
+  canary_failed_rs (r_status (sn_rs sn)) = true ->
+  pl_status pl = Some st -> canary_failed_rs st = true.
+Proof. exact failed_mark_durable. Qed.
+Print Assumptions C07_failed_mark_durable.
